@@ -23,9 +23,9 @@ func init() {
 
 func c12Shapes(tier string) [][]int {
 	if tier == "thorough" {
-		return [][]int{{1, 1}, {4}, {3, 1}, {1, 3}, {2, 3}, {2, 3, 2}, {2, 2, 3, 2}, {5, 4}}
+		return [][]int{{}, {1}, {1, 1}, {4}, {3, 1}, {1, 3}, {2, 3}, {2, 3, 2}, {2, 2, 3, 2}, {5, 4}}
 	}
-	return [][]int{{1, 1}, {4}, {1, 3}, {2, 3}, {2, 3, 2}}
+	return [][]int{{}, {1, 1}, {4}, {1, 3}, {2, 3}, {2, 3, 2}}
 }
 
 func c12Groups(tier string) []core.Group {
